@@ -566,7 +566,7 @@ func (pgMgr *PodGroupManager) Permit(ctx context.Context, pod *corev1.Pod) (time
 	}
 	if !allGangGroupAssumed {
 		gang.addWaitingGang()
-		return gang.WaitTime, Wait
+		return gang.getGangWaitTime(), Wait
 	}
 	return 0, Success
 }
@@ -644,8 +644,9 @@ func (pgMgr *PodGroupManager) AllowGangGroup(pod *corev1.Pod, handle fwktype.Han
 		return
 	}
 
+	gangGroupId := gang.getGangGroupId()
 	if pgMgr.workloadAuditor != nil {
-		pgMgr.workloadAuditor.RecordGangScheduleResult(gang.GangGroupId, workloadauditor.RecordTypeScheduled, "")
+		pgMgr.workloadAuditor.RecordGangScheduleResult(gangGroupId, workloadauditor.RecordTypeScheduled, "")
 	}
 
 	gangSlices := gang.getGangGroup()
@@ -658,10 +659,10 @@ func (pgMgr *PodGroupManager) AllowGangGroup(pod *corev1.Pod, handle fwktype.Han
 		}
 		gang.setBindingMembers(memberPods)
 		klog.V(4).InfoS("AllowGangGroup: record binding members for gang",
-			"pod", klog.KObj(pod), "gang", gang.Name, "gangGroup", gang.GangGroupId, "memberPods", memberPods.Len())
+			"pod", klog.KObj(pod), "gang", gang.Name, "gangGroup", gangGroupId, "memberPods", memberPods.Len())
 	} else {
 		klog.V(4).InfoS("AllowGangGroup: binding members already set, skip recording",
-			"pod", klog.KObj(pod), "gang", gang.Name, "gangGroup", gang.GangGroupId, "memberPods", currentBindingMembers.Len())
+			"pod", klog.KObj(pod), "gang", gang.Name, "gangGroup", gangGroupId, "memberPods", currentBindingMembers.Len())
 	}
 
 	handle.IterateOverWaitingPods(func(waitingPod fwktype.WaitingPod) {
